@@ -172,9 +172,11 @@ class AliasAnalysis(object):
         if e is None or isinstance(e, (ast.Constant, ast.JoinedStr, ast.Compare, ast.BoolOp)):
             return {FRESH}
         if isinstance(e, ast.Name):
+            if e.id in env:
+                return set(env[e.id])
             if e.id in self.state_params:
                 return {ALIAS}
-            return set(env.get(e.id, {FRESH}))
+            return {FRESH}
         if isinstance(e, ast.Attribute):
             base = self.classify(e.value, env)
             return {ALIAS} if (ALIAS in base or SHALLOW in base) else {FRESH}
@@ -270,7 +272,8 @@ class AliasAnalysis(object):
     def _run(self):
         cfg = self.cfg
         self.in_state = {n.id: None for n in cfg.nodes}
-        self.in_state[cfg.entry.id] = {}
+        # parameters that denote caller-visible state start as aliases; a re-binding replaces the tags, a join unions them
+        self.in_state[cfg.entry.id] = {p: {ALIAS} for p in self.state_params}
         work = [cfg.entry.id]
         while work:
             a = work.pop()
